@@ -148,6 +148,18 @@ pub mod ext_vec {
         ensures r@ == old(v)@, final(v)@.len() == 0,
     { v.drain(..).collect() }
 
+    /// the elements an IntoIterator value yields, in order (ghost; ASSUMED meaning of `into_iter()` for the types below)
+    pub uninterp spec fn iter_seq<T, I>(it: I) -> Seq<T>;
+    /// ASSUMED: an Option iterates over its content (std: `impl IntoIterator for Option<T>`)
+    #[verifier::external_body]
+    pub broadcast proof fn axiom_iter_seq_option<T>(o: Option<T>)
+        ensures #[trigger] iter_seq::<T, Option<T>>(o) == (match o { Some(x) => seq![x], None => Seq::<T>::empty() }),
+    {}
+    /// ASSUMED: Vec::extend appends what the iterator yields, in order
+    pub assume_specification<T, A, I> [<std::vec::Vec<T, A> as std::iter::Extend<T>>::extend] (v: &mut std::vec::Vec<T, A>, it: I)
+        where A: std::alloc::Allocator, I: std::iter::IntoIterator<Item = T>,
+        ensures final(v)@ == old(v)@ + iter_seq::<T, I>(it);
+
     /// ASSUMED: slice::contains is membership w.r.t. `==` (for element types whose eq obeys its spec).
     pub assume_specification<T: PartialEq> [<[T]>::contains] (s: &[T], x: &T) -> (r: bool)
         ensures <T as vstd::std_specs::cmp::PartialEqSpec>::obeys_eq_spec() && (forall|a: T, b: T| (#[trigger] vstd::std_specs::cmp::PartialEqSpec::eq_spec(&a, &b)) <==> (a == b)) ==> r == s@.contains(*x);
